@@ -12,7 +12,9 @@ def run(tier, seed, only=None):
     run = Run(ID, tier, seed)
     run.trusted = [T3, T4, T5, T6]
     run.assumptions = [T3, T4, LOGGING, UU.BOUND_NOTE]
-    for u in UU.units((ID, 'C08', 'C09')) + UU.update_units((ID, 'C08', 'C09')) + UU.step_units((ID, 'C09', 'C15')):
+    from .framing_units import framing_units
+    for u in (UU.units((ID, 'C08', 'C09')) + UU.update_units((ID, 'C08', 'C09')) + UU.step_units((ID, 'C09', 'C15')) +
+              framing_units((ID,), strict=True)):
         if only and u.name not in only:
             continue
         run.run_unit(u, prog)
